@@ -140,6 +140,8 @@ def step (page : Nat) (ws : List String) : Nat × String :=
     | _, _, _ => (page, "bad-op")
   -- /proc/version against a copy of it (both ways), and against an empty file (both ways): file_equals_sized_iff_bytes
   | ["feqproc"] => (page, "eq=1100 fds=1")
+  -- a sysfs attribute against its copy: identical bytes, so the property says equal (the implementation trusts the sizes: known finding)
+  | ["feqsys"] => (page, "eq=11 fds=1")
   | ["feqino", da, ia, db, ib, same] =>
     match da.toInt?, ia.toNat?, db.toInt?, ib.toNat? with
     | some da, some ia, some db, some ib =>
